@@ -32,19 +32,36 @@ LAYOUTS = {
     'seven-a2': [('a2', r, p) for (r, p) in POS7],
     'six-hole': [('a2', 1, 1), ('a3', 2, 1), ('a2', 2, 2), ('a3', 2, 4), ('a2', 2, 5), ('a3', 2, 6)],
     'ring-no-centre': [('a2', 2, 1), ('a3', 2, 2), ('a2', 2, 3)],
+    'nineteen-a2': [('a2', 1, 1)] + [('a2', 2, p) for p in range(1, 7)] + [('a2', 3, p) for p in range(1, 13)],
+    # 19-position grid, sparse: centre, part of ring 2, three positions of ring 3 (one at a ring corner)
+    'nineteen-sparse': [('a2', 1, 1), ('a3', 2, 1), ('ur', 2, 2), ('a2', 2, 4), ('a3', 3, 1), ('a2', 3, 2), ('ur', 3, 6)],
 }
 _CACHE = {}
 
 
+def rotate_layout(entries):
+    """The same loading pattern turned by one position per ring side (60 degrees about the core centre)."""
+    out = []
+    for (t, r, p) in entries:
+        out.append((t, r, p) if r == 1 else (t, r, ((p - 1 + (r - 1)) % (6 * (r - 1))) + 1))
+    return out
+
+
 def build_reactor(layout, gap_model='flow', adiabatic=False):
+    """layout: a key of LAYOUTS or an explicit tuple of (type, ring, position) entries."""
+    if not isinstance(layout, str):
+        layout = tuple(tuple(e) for e in layout)
+        entries = list(layout)
+    else:
+        entries = LAYOUTS[layout]
     key = (layout, gap_model)
     if key in _CACHE:
         return _CACHE[key]
     d = tempfile.mkdtemp(prefix='dassh-verif-core.')
     try:
-        names = sorted(set(t for t, _, _ in LAYOUTS[layout]))
+        names = sorted(set(t for t, _, _ in entries))
         asms = {t: geninp.default_asm(**TYPES[t]) for t in names}
-        assign = [(t, r, p, 'FLOWRATE=%g' % (0.3 + 0.05 * i)) for i, (t, r, p) in enumerate(LAYOUTS[layout])]
+        assign = [(t, r, p, 'FLOWRATE=%g' % (0.3 + 0.05 * i)) for i, (t, r, p) in enumerate(entries)]
         inp = geninp.write_case(d, asms, assign, gap_model=gap_model, core_len=0.05)
         from symx import npshim
         with npshim.unpatched():
